@@ -829,8 +829,23 @@ fn apply_span_edits(src: &str, span_edits: &mut [SpanEdit]) -> String {
     span_edits.sort_by_key(|b| std::cmp::Reverse(b.start_offset));
 
     let mut result = src.to_owned();
+    // The start of the last edit we applied. Everything before this
+    // offset is still the same as in `src`.
+    let mut applied_start = src.len();
     for edit in span_edits.iter() {
+        // Edits computed from a syntax tree with parse errors can
+        // overlap or have meaningless offsets. Skip those rather than
+        // crashing or garbling the text.
+        if edit.start_offset > edit.end_offset
+            || edit.end_offset > applied_start
+            || !src.is_char_boundary(edit.start_offset)
+            || !src.is_char_boundary(edit.end_offset)
+        {
+            continue;
+        }
+
         result.replace_range(edit.start_offset..edit.end_offset, &edit.replacement);
+        applied_start = edit.start_offset;
     }
 
     result
